@@ -31,8 +31,8 @@ class Gen:
     if k == 1: return [1, r.randrange(2)]
     if k <= 4: return [2, r.choice([0, 1, 2, 3, 5, -1, 100])]
     if k <= 6: return [3] + [ord(c) for c in r.choice(LEAF_STRS)]
-    if k == 7 and self.next_oid > 1 and r.random() < 0.5:
-      oid = r.randrange(1, self.next_oid)     # share an existing opaque object
+    if k == 7 and self.next_oid > 1:
+      oid = r.randrange(1, self.next_oid)     # share an existing opaque object (one object at several places: siblings, nested, other roots)
       return [5, oid, self.tags[oid]]
     if k <= 8:
       oid = self.next_oid; self.next_oid += 1
